@@ -1,4 +1,6 @@
-use crate::{Enr, EnrKey, EnrPublicKey, Error, Key, NodeId, MAX_ENR_SIZE};
+use crate::{
+    check_spec_reserved_keys, Enr, EnrKey, EnrPublicKey, Error, Key, NodeId, MAX_ENR_SIZE,
+};
 use crate::{
     ENR_VERSION, ID_ENR_KEY, IP6_ENR_KEY, IP_ENR_KEY, TCP6_ENR_KEY, TCP_ENR_KEY, UDP6_ENR_KEY,
     UDP_ENR_KEY,
@@ -176,16 +178,17 @@ impl<K: EnrKey> Builder<K> {
             return Err(Error::UnsupportedIdentityScheme);
         }
 
-        // Sanitize all data, ensuring all RLP data is correctly formatted.
-        for value in self.content.values() {
-            Header::decode(&mut value.as_ref())?;
-        }
-
         let mut id_bytes = BytesMut::with_capacity(self.id.length());
         self.id.as_bytes().encode(&mut id_bytes);
         self.add_value_rlp(ID_ENR_KEY, id_bytes.freeze());
 
         self.add_public_key(&key.public());
+
+        // Sanitize all data, ensuring every value is exactly one RLP item and that the keys
+        // reserved by the specification hold values of the right type.
+        for (key, value) in &self.content {
+            check_spec_reserved_keys(key, value)?;
+        }
         let rlp_content = self.rlp_content();
 
         let signature = self.signature(key)?;
